@@ -105,12 +105,14 @@ def run_variant(item):
         e.update(env)
         e['PYTHONPATH'] = '%s:%s' % (core.VERIF, os.path.join(core.VERIF, '.deps'))
         e['VT_REPO'] = core.REPO
+        e['VT_STUB_DIR'] = os.path.join(tmpdir, 'stubs')
         e.pop('GI_SCANNER_DISABLE_CACHE', None)
         p = subprocess.run([sys.executable, '-m', 'vt.c16_runner', casefile], capture_output=True, text=True, timeout=120, env=e, cwd=core.VERIF)
         if p.returncode != 0:
             return {'harness': 'runner failed: %s' % p.stderr[-400:]}
         r = json.loads(p.stdout)
-        return {'gir': r['gir'], 'fatal': r['fatal'], 'exception': r['exception'], 'cache_entries': r.get('cache_entries')}
+        return {'gir': r['gir'], 'fatal': r['fatal'], 'exception': r['exception'], 'cache_entries': r.get('cache_entries'),
+                'cache_hits': r.get('cache_hits'), 'cache_misses': r.get('cache_misses')}
     finally:
         shutil.rmtree(d, ignore_errors=True)
 
@@ -186,6 +188,9 @@ def run(args):
                 chk.monitor_hits['compared:' + vname.split('=')[0]] += 1
                 if cm == 'warm':
                     chk.monitor_hits['warm-cache-entries'] += len(r.get('cache_entries') or [])
+                    chk.monitor_hits['warm-cache-hits'] += r.get('cache_hits') or 0
+                if cm == 'cold':
+                    chk.monitor_hits['cold-cache-misses'] += r.get('cache_misses') or 0
                 if a != b:
                     chk.violation('differs:' + vname.split('=')[0], 'output differs between reference run and variant %s: %s' % (vname, first_diff(a, b)),
                                   {'variant': vname, 'lib': l, 'reference_lib': lib})
@@ -195,7 +200,8 @@ def run(args):
         chk.extra['harness_failures'] = hf[:5]
         chk.require(chk.monitor_hits['compared:hashseed'] > 0 and chk.monitor_hits['compared:cache-warm'] > 0 and chk.monitor_hits['compared:block-order'] > 0,
                     'variants not compared')
-        chk.require(chk.monitor_hits['warm-cache-entries'] > 0, 'warm cache run found no cache entries (cache not exercised)')
+        chk.require(chk.monitor_hits['warm-cache-hits'] > 0 and chk.monitor_hits['cold-cache-misses'] > 0,
+                    'cache not exercised (warm hits %d, cold misses %d)' % (chk.monitor_hits['warm-cache-hits'], chk.monitor_hits['cold-cache-misses']))
         chk.require(len(hf) <= 2, 'harness failures %r' % hf[:2])
         chk.assumptions = ['order variants are compared modulo line numbers/source positions, which move with the input text',
                            'C front end replaced by the stand-in parser (its symbol order follows the header text)']
